@@ -102,6 +102,7 @@ class State:
     def __init__(self):
         self.fields = {}            # (class name, attr) -> (z3 Array Int->sort, Kind)
         self.field_kinds = {}       # (class name, attr) -> Kind
+        self.field_inv = {}         # (class name, attr) -> fn(term) -> z3 Bool: invariant of the field, assumed at every read
         self.class_over = {}        # (class qualname, attr) -> value   (class attributes mutated at run time)
         self.events = []            # ghost event log
         self.ghost = {}
@@ -118,7 +119,11 @@ class State:
                 return self.interp.bind_class_attr(so, v)
             raise Unsupported('field %s.%s of a symbolic object is not declared in the sidecar' % key)
         arr, kind = self.fields[key]
-        return self.interp.wrap(z3.Select(arr, so.ref), kind)
+        t = z3.simplify(z3.Select(arr, so.ref))
+        inv = self.field_inv.get(key)
+        if inv is not None:
+            self.interp.ctx.assume(inv(t))
+        return self.interp.wrap(t, kind)
 
     def write_field(self, so, name, value):
         key = (so.cls.name, name)
@@ -154,6 +159,9 @@ class Interp:
             n = z3.simplify(acc_n(t))
             self.ctx.assume(n >= 0)
             return SymSeq(z3.simplify(acc_arr(t)), n, kind.inner)
+        if kind.ty == 'pair':
+            ts, mk_, (a0, a1) = pair_sort(kind.inner[0].sort(), kind.inner[1].sort())
+            return (self.wrap(z3.simplify(a0(t)), kind.inner[0]), self.wrap(z3.simplify(a1(t)), kind.inner[1]))
         if kind.ty == 'box':
             for ref, val in self.state.boxes:
                 if ref.eq(t):
@@ -202,6 +210,9 @@ class Interp:
                     arr = z3.Store(arr, z3.IntVal(i), self.unwrap(x, kind.inner))
                 return mk_(arr, z3.IntVal(len(v.items)))
             raise Unsupported('storing %r as a list value' % (v,))
+        if kind.ty == 'pair':
+            ts, mk_, (a0, a1) = pair_sort(kind.inner[0].sort(), kind.inner[1].sort())
+            return mk_(self.unwrap(v[0], kind.inner[0]), self.unwrap(v[1], kind.inner[1]))
         if kind.ty == 'box':
             if isinstance(v, Box):
                 return v.ref
